@@ -231,6 +231,42 @@ fn negatives(acc: &mut Acc, meta: &MetadataWrapper, all_bits: bool) {
     }
 }
 
+/// ECDSA signatures are randomized and DER-encoded: their length varies (68..72 bytes).
+/// The signing randomness cannot be enumerated, so this one dimension is *searched*: sign
+/// until every length class has been seen (cap on attempts), then verify one of each.
+fn ecdsa_length_classes(acc: &mut Acc, meta: &MetadataWrapper) -> serde_json::Map<String, Value> {
+    let k = keys::get("ec1");
+    let mut seen: std::collections::BTreeMap<usize, Metablock> = Default::default();
+    let mut attempts = 0u64;
+    while attempts < 40_000 && !(seen.keys().any(|l| *l <= 69) && seen.contains_key(&70) && seen.contains_key(&71) && seen.contains_key(&72)) {
+        attempts += 1;
+        let mb = world::sign(meta.clone(), &[k]);
+        let len = serde_json::to_value(&mb.signatures[0]).unwrap()["sig"].as_str().unwrap().len() / 2;
+        seen.entry(len).or_insert(mb);
+    }
+    let mut info = serde_json::Map::new();
+    info.insert("attempts".into(), json!(attempts));
+    info.insert("lengths_seen".into(), json!(seen.keys().collect::<Vec<_>>()));
+    info.insert("sampled".into(), json!(true));
+    for (len, mb) in &seen {
+        for out in ["to_string", "to_string_pretty"] {
+            acc.evaluations += 1;
+            acc.nontrivial += 1;
+            let ok = write_out(mb, out).ok().and_then(|b| serde_json::from_slice::<Metablock>(&b).ok()).map(|p| matches!(guard(|| p.verify(1, [k.public()])), Guard::Done(Ok(_)))).unwrap_or(false);
+            if ok {
+                acc.outcome("verifies-after-roundtrip");
+            } else {
+                acc.violation(
+                    "rejected-after-roundtrip:ecdsa:signature-length-class",
+                    &format!("an ECDSA signature of {len} bytes made by the library does not verify after a round trip"),
+                    || json!({"kind": "ecdsa-length", "length": len, "block": world::block_value(mb)}),
+                );
+            }
+        }
+    }
+    info
+}
+
 pub fn run(tier: Tier) -> i32 {
     let mut c = Check::new("C09", "exploration", tier);
     let mut acc = Acc::new();
@@ -307,6 +343,8 @@ pub fn run(tier: Tier) -> i32 {
     if tier.thorough() {
         negatives(&mut acc, &four[3].1, true);
     }
+    let ecdsa_info = ecdsa_length_classes(&mut acc, &four[0].1);
+    c.extra.insert("ecdsa_signature_length_classes".into(), Value::Object(ecdsa_info));
     // observation (not judged): repeated sign() calls on the builder
     {
         let b = MetablockBuilder::from_metadata(four[0].1.clone().into_trait()).sign(&[&keys::get("ed1").private]).unwrap().sign(&[&keys::get("ed2").private]).unwrap().build();
@@ -322,6 +360,7 @@ pub fn run(tier: Tier) -> i32 {
     c.bound_completed = "complete within the stated alphabets".into();
     c.assume("signers are distinct keys; expiry years within 0001..9999; byproduct member names outside the reserved names (those are C16's)");
     c.assume("ring is a trusted black box");
+    c.assume("one searched (not enumerated) dimension: the DER length classes of randomized ECDSA signatures, reported under ecdsa_signature_length_classes");
     c.finish()
 }
 
@@ -338,6 +377,12 @@ pub fn replay(case: &Value) -> Value {
             roundtrip_case(&mut acc, "replay", &meta, &signers, how, &OUTPUTS);
         }
         Some("negative") => negatives(&mut acc, &c11::link_with("stdout", "a\nb\"c\\d\te"), true),
+        Some("ecdsa-length") => {
+            if let Ok(mb) = world::block_from_value(&case["block"]) {
+                let ok = mb.verify(1, [keys::get("ec1").public()]).is_ok();
+                return json!({"verifies": ok, "violation": if ok { Value::Null } else { json!("rejected-after-roundtrip:ecdsa:signature-length-class") }});
+            }
+        }
         _ => {}
     }
     json!({"violation": acc.violations.keys().next()})
